@@ -747,7 +747,13 @@ func addTimeSubs(cfg *ResponseConfig, a *asset, period *m.Period, languages []st
 			st.SegmentTimeline = changeTimelineTimescale(vST.SegmentTimeline, int(*vST.Timescale), SUBS_TIME_TIMESCALE)
 		}
 		as := m.NewAdaptationSet()
-		as.Id = Ptr(uint32(100 + i))
+		// The ids must be unique in the Period also when both kinds of subtitles are generated
+		// (an MPD patch addresses an AdaptationSet by its id)
+		asID := 100 + i
+		if kind == "wvtt" {
+			asID = 200 + i
+		}
+		as.Id = Ptr(uint32(asID))
 		as.Lang = lang
 		as.ContentType = "text"
 		as.MimeType = "application/mp4"
